@@ -26,6 +26,10 @@ pub struct Ctx<'a> {
   pub rows: &'a [String],
   /// the same rows grouped into the model's sections (sorted, joined by '|')
   pub secs: BTreeMap<&'static str, String>,
+  /// this update's canonical event string exactly as on the `events` line ("-" when empty)
+  pub events: &'a str,
+  /// heights indexed by this update (usually one; the empty prefix is indexed in one go)
+  pub first_new_height: u32,
 }
 
 pub type Probe<'p> = &'p mut dyn FnMut(&Ctx, &mut Rng, &mut Streams, &mut Dist);
@@ -148,10 +152,11 @@ fn drain_events(ix: &mut env::Ix) -> String {
 /// one generated chain, indexed block by block by the real indexer, with the model following
 fn chain_case(args: &Args, rng: &mut Rng, out: &mut Streams, dist: &mut Dist, scratch: &Path, case: u64, probe: Probe) {
   let chain = if rng.chance(1, 4) { "testnet4" } else { "regtest" };
-  let flags = match rng.below(6) {
+  let flagsweep = args.get("flagsweep") == Some("1");
+  let flags = match if flagsweep { 5 } else { rng.below(6) } {
     0..=2 => Flags::all(),
     _ => {
-      let mut f = Flags::from_bits(rng.below(32) as u32);
+      let mut f = Flags::from_bits(if flagsweep { (case % 32) as u32 } else { rng.below(32) as u32 });
       if !f.sats && !f.addr && !f.ins && !f.runes {
         f.ins = true;
       }
@@ -161,7 +166,7 @@ fn chain_case(args: &Args, rng: &mut Rng, out: &mut Streams, dist: &mut Dist, sc
   let node = Node::new(chain, scratch);
   let mut ix = env::open(&node, scratch, flags, &[], true);
   let mut g = chaingen::Gen::new(rng.fork(), node.core.state().network);
-  g.malformed = rng.chance(1, 3);
+  g.malformed = rng.chance(1, 3) || args.get("malformed") == Some("1");
   let blocks = args.get("blocks").map(|v| v.parse().unwrap()).unwrap_or(14u64);
   let nblocks = 2 + rng.below(blocks);
   // regtest jubilee is at 110: a third of the regtest chains start with ~105 empty blocks
@@ -197,6 +202,7 @@ fn chain_case(args: &Args, rng: &mut Rng, out: &mut Streams, dist: &mut Dist, sc
         return;
       }
     }
+    let first_new_height = next_emit.max(1);
     // describe every block the indexer just consumed
     while next_emit <= node.height() {
       if next_emit > 1 || true {
@@ -224,7 +230,7 @@ fn chain_case(args: &Args, rng: &mut Rng, out: &mut Streams, dist: &mut Dist, sc
     // property-specific queries and oracle lines (one module per property group)
     {
       let rows = ix.index.verif_dump().unwrap();
-      let ctx = Ctx { ix: &ix, node: &node, g: &g, flags, chain, case, rows: &rows, secs: env::sections(&rows) };
+      let ctx = Ctx { ix: &ix, node: &node, g: &g, flags, chain, case, rows: &rows, secs: env::sections(&rows), events: &evs, first_new_height };
       probe(&ctx, rng, out, dist);
     }
     // C16 oracle: indexing a valid chain never fails (evaluated on the implementation)
